@@ -119,7 +119,8 @@ func (sf *storeFlusher) Commit() (err error) {
 		}
 	}()
 	if builder != nil {
-		if builder.Size() > 0 {
+		// a table whose values are all empty has no bytes yet, but it has keys
+		if builder.Count() > 0 {
 			err = builder.Close()
 			if err != nil {
 				return fmt.Errorf("close table builder error when flush commit, error:%s", err)
